@@ -328,6 +328,9 @@ namespace BitSerializer::Convert::Detail
 			pos = parseDatetimePart(pos, end, utc.Year, std::nullopt, std::nullopt, '-', true);
 			pos = parseDatetimePart(pos, end, utc.Month, 1, 12, '-');
 			pos = parseDatetimePart(pos, end, utc.Day, 1, DaysInMonth[utc.Month - 1], 'T');
+			if (utc.Month == 2 && utc.Day == 29 && (utc.Year % 4 != 0 || (utc.Year % 100 == 0 && utc.Year % 400 != 0))) {
+				throw std::invalid_argument("Input datetime contains out-of-bounds values");
+			}
 			pos = parseDatetimePart(pos, end, utc.Hour, 0, 23, ':');
 			pos = parseDatetimePart(pos, end, utc.Min, 0, 59, ':');
 			pos = parseDatetimePart(pos, end, utc.Sec, 0, 59);
